@@ -31,10 +31,15 @@ def make_classes():
         count = 0
         snap = None        # callable returning the snapshot of the universe
 
-    def mk(base, slots):
+    def mk(base, slots, eq=False):
         ns = {}
         if slots:
             ns["__slots__"] = ("label",)
+        if eq:
+            # adversarial node class: every two nodes compare equal (identity must decide, C17)
+            ns["__eq__"] = lambda self, other: True
+            ns["__ne__"] = lambda self, other: False
+            ns["__hash__"] = lambda self: 0
 
         def init(self, label):
             self.label = label
@@ -54,7 +59,9 @@ def make_classes():
                         raise Veto("%s(%s)" % (_h, self.label))
             ns[h] = hook
         return type("T" + base.__name__, (base,), ns)
-    fams = {"NodeMixin": (mk(NodeMixin, False), "_NodeMixin"), "LightNodeMixin": (mk(LightNodeMixin, True), "_LightNodeMixin")}
+    fams = {"NodeMixin": (mk(NodeMixin, False), "_NodeMixin"), "LightNodeMixin": (mk(LightNodeMixin, True), "_LightNodeMixin"),
+            "NodeMixin/eq": (mk(NodeMixin, False, True), "_NodeMixin"),
+            "LightNodeMixin/eq": (mk(LightNodeMixin, True, True), "_LightNodeMixin")}
     return Ctl, fams
 
 
@@ -182,7 +189,7 @@ def reference(s, call, fam, nonnode):
         return ref_set_parent(s, call[1], call[2], fam, nonnode)
     if op == "del_children":
         return ref_del_children(s, call[1])
-    if op == "set_children":
+    if op in ("set_children", "set_children_iter"):
         return ref_set_children(s, call[1], call[2], fam, nonnode)
     raise ValueError(op)
 
@@ -214,13 +221,15 @@ def run_case(case, Ctl, fams):
             del nodes[call[1]].children
         elif call[0] == "set_children":
             nodes[call[1]].children = [objs[x] for x in call[2]] if call[2] is not None else 5
+        elif call[0] == "set_children_iter":
+            nodes[call[1]].children = iter([objs[x] for x in call[2]])       # a one-shot iterable
     except BaseException as e:            # noqa
         exc = e
     Ctl.snap = None
     after = snapshot(nodes)
     log = [(h, r, a) for h, r, a, _, _ in Ctl.log]
     raised = [k for k, e in enumerate(Ctl.log) if e[4]]
-    exp_exc, exp_state, exp_ev = reference(before, call, fam, nonnode)
+    exp_exc, exp_state, exp_ev = reference(before, call, fam.split("/")[0], nonnode)
     if exp_exc == "PRECONDITION":
         return {"valid": False, "reason": "argument outside the property's precondition (LightNodeMixin, non-node)"}
     excname = type(exc).__name__ if exc is not None else None
@@ -295,7 +304,7 @@ def kf_case(case, res):
         if e and e[0] == "_pre_detach" and e[2] == n and old and e[1] != old[0]:
             return "KF2"
         return None
-    if call[0] != "set_children":
+    if call[0] not in ("set_children", "set_children_iter"):
         return None
     xs = call[2]
     # the restore is the nested assignment n.children = old: it starts with _pre_detach_children(n, ...) after the
@@ -346,6 +355,8 @@ def calls(labels, nonnode, maxlen):
         for k in range(0, maxlen + 1):
             for xs in itertools.product(tg, repeat=k):
                 yield ["set_children", n, list(xs)]
+                if k == maxlen:
+                    yield ["set_children_iter", n, list(xs)]
 
 
 def fault_plans(labels):
@@ -403,47 +414,59 @@ def queries(nodes):
                          ZigZagGroupIter)
     from anytree.util import commonancestors, leftsibling, rightsibling
     lab = lambda x: None if x is None else (x.label if hasattr(x, "label") else [lab(y) for y in x])
+
+    def safe(f):
+        try:
+            v = f()
+            return v if isinstance(v, (int, bool, str)) else lab(v)
+        except Exception as e:          # noqa - an exception is an observation too
+            return "raises " + type(e).__name__
     out = {}
     for l, n in nodes.items():
         o = {}
         for a in ("parent", "children", "path", "ancestors", "root", "depth", "height", "is_leaf", "is_root", "siblings",
                   "descendants", "leaves", "size"):
-            v = getattr(n, a)
-            o[a] = v if isinstance(v, (int, bool)) else lab(v)
-        o["rpath"] = lab(list(n.iter_path_reverse()))
+            o[a] = safe(lambda: getattr(n, a))
+        o["rpath"] = safe(lambda: list(n.iter_path_reverse()))
         for it in (PreOrderIter, PostOrderIter, LevelOrderIter, LevelOrderGroupIter, ZigZagGroupIter):
-            o[it.__name__] = lab(list(it(n)))
-            o[it.__name__ + "/2"] = lab(list(it(n, maxlevel=2)))
-        o["left"], o["right"] = lab(leftsibling(n)), lab(rightsibling(n))
-        o["render"] = [(r.pre, r.fill, lab(r.node)) for r in RenderTree(n)]
+            o[it.__name__] = safe(lambda: list(it(n)))
+            o[it.__name__ + "/2"] = safe(lambda: list(it(n, maxlevel=2)))
+        o["left"], o["right"] = safe(lambda: leftsibling(n)), safe(lambda: rightsibling(n))
+        o["render"] = safe(lambda: [[r.pre, r.fill, lab(r.node)] for r in RenderTree(n)])
         for l2, n2 in nodes.items():
-            try:
-                w = Walker().walk(n, n2)
-                o["walk:" + l2] = [lab(w[0]), lab(w[1]), lab(w[2])]
-            except anytree.WalkError:
-                o["walk:" + l2] = "WalkError"
-            o["common:" + l2] = lab(commonancestors(n, n2))
-            try:
-                o["get:" + l2] = lab(Resolver("label").get(n, "../" + l2))
-            except anytree.ResolverError as e:
-                o["get:" + l2] = type(e).__name__
+            o["walk:" + l2] = safe(lambda: list(Walker().walk(n, n2)))
+            o["common:" + l2] = safe(lambda: commonancestors(n, n2))
+            o["get:" + l2] = safe(lambda: Resolver("label").get(n, "../" + l2))
         out[l] = o
     return out
 
 
+_qmemo = {}
+
+
 def diff_case(case, Ctl, fams):
     outs = {}
+    sfx = "/eq" if case.get("eq") else ""
     for fam in ("NodeMixin", "LightNodeMixin"):
-        c = dict(case, family=fam)
+        c = dict(case, family=fam + sfx)
         r = run_case(c, Ctl, fams)
         if not r["valid"]:
             return {"valid": False}
-        # rebuild the post-state and ask every read-only query
-        nodes = build(fam, r["after"]["par"], r["after"]["ch"], fams)
-        outs[fam] = {"exception": r["exception"], "after": r["after"], "log": r["log"], "queries": queries(nodes),
-                     "changed": r["before"] != r["after"]}
+        outs[fam] = {"exception": r["exception"], "after": r["after"], "log": r["log"], "changed": r["before"] != r["after"]}
     a, b = outs["NodeMixin"], outs["LightNodeMixin"]
-    differs = [k for k in ("exception", "after", "log", "queries") if a[k] != b[k]]
+    differs = [k for k in ("exception", "after", "log") if a[k] != b[k]]
+    if not differs and wf(a["after"]) == []:
+        # same structure: rebuild it in both families and ask every read-only query (once per distinct structure)
+        key = json.dumps(a["after"], sort_keys=True) + sfx
+        if key not in _qmemo:
+            qs = {}
+            for fam in ("NodeMixin", "LightNodeMixin"):
+                nodes = build(fam + sfx, a["after"]["par"], a["after"]["ch"], fams)
+                qs[fam] = queries(nodes)
+            _qmemo[key] = qs
+        a["queries"], b["queries"] = _qmemo[key]["NodeMixin"], _qmemo[key]["LightNodeMixin"]
+        if a["queries"] != b["queries"]:
+            differs = ["queries"]
     return {"valid": True, "differs": differs, "NodeMixin": {k: a[k] for k in differs}, "LightNodeMixin": {k: b[k] for k in differs},
             "nontrivial": a["changed"] or a["exception"] is not None}
 
@@ -455,7 +478,7 @@ def diffsearch(spec, Ctl, fams):
     for forest, order in forests(labels):
         for call in calls(labels, [], spec.get("maxlen", 2)):
             for fault in fault_plans(labels):
-                case = {"forest": forest, "order": order, "nonnode": [], "call": call, "fault": fault}
+                case = {"forest": forest, "order": order, "nonnode": [], "call": call, "fault": fault, "eq": bool(spec.get("eq"))}
                 r = diff_case(case, Ctl, fams)
                 if not r["valid"]:
                     continue
